@@ -96,6 +96,15 @@ CHECKS['C16'] = dict(
     note='Trusted: Lean kernel; Python identity is abstracted to "callback returned its argument or a different object".',
     design='7 (C16)')
 
+CHECKS['C02'] = dict(
+    technique='Lean 4 model of the emitted shunting-yard loop inside the code model + operational specification (PEG sub-parsers + operator-precedence stacks) + refinement theorem (flag-driven restores suffice, incl. the table flags re-extracted from source) + differential correspondence over random tables x token strings',
+    text=('Proof: the operator table is a constructor of the core expression language; C01_codegen_refines_peg covers it (genOT_refines: the emitted loop with its flag-dependent checkpoints computes pegOT for every locally sound flag table, '
+          're-proved for the OperatorTable/Apply flags extracted from /repo), as do the position/boundedness theorems. Tie: random tables (1-5 rows, all six row kinds, operator spellings shared between prefix/infix/postfix rows and prefixes of one '
+          'another, literal / regex / rule / class / consuming-rule operands, several enclosing contexts) x token strings, complete and truncated: tree and end index compared with the Lean model and specification. '
+          'PARTIAL: the specification is operational; the declarative clauses (yield of the tree = consumed occurrences, well-shapedness, uniqueness) are not yet theorems.'),
+    note='Trusted as for C01.',
+    design='7 (C02)')
+
 NOT_YET = {
 }
 
